@@ -2,7 +2,10 @@
 From Esc Require Export SpecScan.
 
 Record obs_group := { og_name : id; og_calls : list call; og_state : gstate; og_desired : Z; og_tries : Z }.
-Record scan_case := { sc_snap : snapshot; sc_obs : list obs_group; sc_out : Z }.
+(* sc_refresh: outcomes of the successive provider refresh / rebuild calls at the start of the scan (see Scan.prelude) *)
+Record scan_case := { sc_snap0 : snapshot; sc_refresh : list bool; sc_obs : list obs_group; sc_out : Z }.
+(* the snapshot the groups are scanned from (a rebuilt provider has forgotten its clean-up counters) *)
+Definition sc_snap (c : scan_case) : snapshot := after_prelude (sc_refresh c) (sc_snap0 c).
 
 Definition out_code (o : outcome) : Z := match o with OutOk => 0 | OutErr => 1 | OutFatal => 2 | OutExit => 3 end.
 
@@ -13,6 +16,11 @@ Definition model_groups (s : snapshot) : list obs_group * Z :=
              og_desired := match r_asg r with Some a => a_desired a | None => 0 end;
              og_tries := match r_asg r with Some a => a_tries a | None => 0 end |}) rs,
    out_code out).
+
+(* the whole RunOnce of a case: the prelude may already end it with Build's error *)
+Definition run_case (c : scan_case) : list (id * gresult) * outcome := run_once_p (sc_refresh c) (sc_snap0 c).
+Definition model_case (c : scan_case) : list obs_group * Z :=
+  match prelude (sc_refresh c) with PStop => ([], 1) | PGo _ => model_groups (sc_snap c) end.
 
 Definition optZ_eqb := option_eqb Z.eqb.
 
@@ -31,7 +39,7 @@ Definition obs_group_eqb (proj : list call -> list call) (a b : obs_group) : boo
   && gstate_eqb (og_state a) (og_state b) && (og_desired a =? og_desired b) && (og_tries a =? og_tries b).
 
 Definition case_agrees (proj : list call -> list call) (c : scan_case) : bool :=
-  let '(mg, mo) := model_groups (sc_snap c) in
+  let '(mg, mo) := model_case c in
   list_eqb (obs_group_eqb proj) mg (sc_obs c) && (mo =? sc_out c).
 
 Definition full (l : list call) : list call := l.
@@ -40,12 +48,12 @@ Definition mismatches_scan (cs : list scan_case) : list nat := indices_where (fu
 Definition propfail_scan (cs : list scan_case) : list nat := [].
 
 (* model-branch coverage: how often each decision tag is reached *)
-Definition case_tags (c : scan_case) : list Z := concat (map (fun nr => r_tags (snd nr)) (fst (run_once (sc_snap c)))).
+Definition case_tags (c : scan_case) : list Z := concat (map (fun nr => r_tags (snd nr)) (fst (run_case c))).
 Definition tags_scan (cs : list scan_case) : list Z :=
   let all := concat (map case_tags cs) in
   map (fun k => count_occ_b (fun t => t =? k) all) [1;2;3;4;5;6;7;8;9;10;11;12;13;14;15;16;17;18;19;20;21;22].
 
-Definition explain_scan (c : scan_case) := (model_groups (sc_snap c), (sc_obs c, sc_out c)).
+Definition explain_scan (c : scan_case) := (model_case c, (sc_obs c, sc_out c)).
 
 (* ---------- per-property projections of the journal (what each property's correspondence compares) ---------- *)
 Definition pi_removal (l : list call) : list call := filter is_removal l.
@@ -66,7 +74,7 @@ Definition obs_group_eqb' (with_state : bool) (proj : list call -> list call) (a
   && (if with_state then gstate_eqb (og_state a) (og_state b) && (og_desired a =? og_desired b) && (og_tries a =? og_tries b) else true).
 
 Definition case_agrees' (with_state : bool) (proj : list call -> list call) (c : scan_case) : bool :=
-  let '(mg, mo) := model_groups (sc_snap c) in
+  let '(mg, mo) := model_case c in
   list_eqb (obs_group_eqb' with_state proj) mg (sc_obs c) && (mo =? sc_out c).
 
 Definition mism (with_state : bool) (proj : list call -> list call) (cs : list scan_case) : list nat :=
@@ -95,7 +103,7 @@ Definition mismatches_C19 := mism false pi_removal.
    RunOnce must have returned that error (outcome 2), not carried on *)
 Definition propfail_C19 (cs : list scan_case) : list nat :=
   indices_where (fun c => negb (for_groups check_C19_group (sc_snap c) (obs_calls c))
-                          || ((snd (model_groups (sc_snap c)) =? 2) && negb (sc_out c =? 2))) cs 0.
+                          || ((snd (model_case c) =? 2) && negb (sc_out c =? 2))) cs 0.
 Definition mismatches_C02 := mism true pi_writes.
 Definition propfail_C02 (cs : list scan_case) : list nat :=
   indices_where (fun c => negb (forallb (fun g => match find_group (sc_snap c) (og_name g) with
@@ -125,7 +133,7 @@ Definition known_K3 (cs : list scan_case) : list nat :=
     negb (sc_out c =? 2) &&
     existsb (fun nr => mem_id T_force_err (r_tags (snd nr)) &&
                        match find_group (sc_snap c) (fst nr) with Some g => force_notingroup (sc_snap c) g | None => false end)
-            (fst (run_once (sc_snap c)))) cs 0.
+            (fst (run_case c))) cs 0.
 
 (* C05, scan side: the scale-up composition (untaints + cloud request: the number of nodes brought into service is the
    needed number, the cloud being asked for exactly the remainder) and the node-size cache *)
